@@ -285,6 +285,42 @@ both!(views_u64_n2, boxed_u64_n2, u64, 2, kani::any());
 both!(views_f32_n2, boxed_f32_n2, f32, 2, any_f32());
 both!(views_f64_n2, boxed_f64_n2, f64, 2, any_f64());
 
+/// the trivial directions: samples viewed as samples, frames viewed as frames
+pub mod identity {
+    use super::*;
+    #[kani::proof]
+    #[kani::unwind(8)]
+    pub fn identity_views() {
+        let mut data: [i16; 4] = kani::any();
+        let len: usize = kani::any();
+        kani::assume(len <= 4);
+        let p = data.as_ptr();
+        {
+            let s: &[i16] = &data[..len];
+            let v: Option<&[i16]> = sl::from_sample_slice(s);
+            assert!(v.is_some() && v.unwrap().as_ptr() == p && v.unwrap().len() == len);
+            let w: &[i16] = sl::to_sample_slice(s);
+            assert!(w.as_ptr() == p && w.len() == len);
+        }
+        {
+            let s: &mut [i16] = &mut data[..len];
+            let v: Option<&mut [i16]> = sl::from_sample_slice_mut(s);
+            assert!(v.is_some());
+            let v = v.unwrap();
+            assert!(v.as_ptr() == p && v.len() == len);
+            let w: &mut [i16] = sl::to_sample_slice_mut(v);
+            assert!(w.as_ptr() == p && w.len() == len);
+        }
+        let fr: [[i16; 2]; 2] = kani::any();
+        let f: &[[i16; 2]] = &fr[..];
+        let g: Option<&[[i16; 2]]> = sl::to_frame_slice(f);
+        assert!(g.is_some() && g.unwrap().as_ptr() == f.as_ptr() && g.unwrap().len() == 2);
+        let h: &[[i16; 2]] = sl::from_frame_slice(f);
+        assert!(h.as_ptr() == f.as_ptr() && h.len() == 2);
+        kani::cover!(true, "end");
+    }
+}
+
 // ------------------------------------------------------------------------------------------
 // in-place slice operations
 // ------------------------------------------------------------------------------------------
@@ -333,6 +369,32 @@ pub mod inplace {
         }
         kani::cover!(la == M && i == M - 1, "full length");
         kani::cover!(la == 0, "empty");
+        kani::cover!(true, "end");
+    }
+
+    /// offset-unsigned and float formats: equilibrium() writes the FORMAT's equilibrium (128 for u8,
+    /// 2^23 for U24 ...), not the all-zero bit pattern
+    #[kani::proof]
+    #[kani::unwind(7)]
+    pub fn equilibrium_unsigned() {
+        let mut a: [[u8; 2]; 3] = kani::any();
+        let mut b: [[u16; 1]; 3] = kani::any();
+        let mut c: [U24; 2] = [any_u24(), any_u24()];
+        let mut d: [[f32; 2]; 2] = [[1.5, -2.0]; 2];
+        let la: usize = kani::any();
+        kani::assume(la <= 3);
+        let orig = a;
+        sl::equilibrium(&mut a[..la]);
+        sl::equilibrium(&mut b[..]);
+        sl::equilibrium(&mut c[..]);
+        sl::equilibrium(&mut d[..]);
+        let i: usize = kani::any();
+        kani::assume(i < 3);
+        assert!(a[i] == if i < la { [128, 128] } else { orig[i] }, "u8 equilibrium is 128");
+        assert!(b[i] == [32768], "u16 equilibrium is 32768");
+        assert!(c[i % 2].inner() == 8_388_608, "U24 equilibrium is 2^23");
+        assert!(d[i % 2] == [0.0, 0.0]);
+        kani::cover!(la == 3, "full length");
         kani::cover!(true, "end");
     }
 
